@@ -145,7 +145,8 @@ Theorem C02_every_method_contract_partial : forall c script img,
   successful c script img -> plain c ->
   forall L, placed c img L ->
   forall id m, nth_error (im_methods img) id = Some m ->
-  contract c img L (need_method c (im_methods img) (max_depth (im_methods img)) id) m.
+  contract c img L (need_method c (im_methods img) (max_depth (im_methods img)) id)
+           (steps_method (im_methods img) (max_depth (im_methods img)) id) m.
 Proof. exact every_method_returns. Qed.
 
 Print Assumptions C02_every_method_contract_partial.
